@@ -50,6 +50,8 @@ class Gen:
         rng = self.rng
         L = Line
         blocks = []
+        wild_used = set()
+        sect_names = []
         for c in T["children"]:
             if c["kind"] in ("key", "multikey"):
                 good = refconv.good_values(c["dt"])
@@ -62,6 +64,7 @@ class Gen:
                         if c["kind"] == "key" and nk in used:
                             continue
                         used.add(nk)
+                        wild_used.add(nk)
                         blocks.append([L(("%s %s" % (k, rng.choice(good))).rstrip(), role="key", cont=cont, child=c)])
                 elif c["kind"] == "key":
                     if c["req"] or rng.random() < 0.6:
@@ -93,6 +96,8 @@ class Gen:
                         name = self.fresh()
                     else:
                         name = c["name"]
+                    if name:
+                        sect_names.append(name)
                     tnw = tn.upper() if rng.random() < 0.2 else tn
                     inner = self.body(self.rec["types"][tn], depth + 1, cont=tn)
                     head = "<%s%s>" % (tnw, (" " + name) if name else "")
@@ -102,6 +107,16 @@ class Gen:
                         blocks.append([L(head, role="open", cont=cont, child=c, type=tn, name=name)]
                                       + [l.indented("  ") for l in inner]
                                       + [L("</%s>" % tn, role="close", cont=cont, child=c, type=tn, name=name)])
+        # a wildcard key spelled like the name of a section of the same container: names of sections and keys are
+        # two namespaces (only declared names are shared), wherever the key line stands
+        wild = [c for c in T["children"] if c["kind"] in ("key", "multikey") and c["name"] == "+"]
+        declared = {c["name"] for c in T["children"]}
+        if wild and sect_names and rng.random() < 0.3:
+            nm = rng.choice(sect_names)
+            nk = refconv.keyconv(T["keytype"], nm)
+            if nk is not None and nk not in wild_used and nk not in declared and nm not in declared:
+                blocks.append([L(("%s %s" % (nm, rng.choice(refconv.good_values(wild[0]["dt"])))).rstrip(),
+                                 role="key", cont=cont, child=wild[0])])
         rng.shuffle(blocks)
         out = []
         for b in blocks:
